@@ -222,7 +222,7 @@ class World:
             orig = h.handle
 
             def wrapped(message, _orig=orig, _t=mtype.__name__):
-                world.handler_calls.append((getattr(message, "message_id", None), _t))
+                world.handler_calls.append((getattr(message, "message_id", None), _t, threading.current_thread().name))
                 return _orig(message)
 
             h.handle = wrapped  # type: ignore[method-assign]
